@@ -53,7 +53,8 @@ LEAN_FILES = ["SymmModel.Props.C02", "SymmModel.Proofs.TdotDense", "SymmModel.Pr
 PLANNED = []
 RULE = ("random contractible pairs of abelian arrays over Z2/U1/Z2Z2/U1U1/Z4 (static and generic classes), "
         "0..ndim contracted axes at random positions incl. negative axes, sparse operands, real and complex "
-        "data, modes auto/fused/blockwise through method/function/autoray entry points; matmul, trace, einsum. "
+        "data, modes auto/fused/blockwise through method/function/autoray entry points; matmul (values, charge, validity), trace, einsum; "
+        "cross-sparse pairs (>= 2 contracted legs, equal sector sizes, operands storing different contracted sub-sectors). "
         "non-trivial: >=1 contracted axis and (>=2 aligned block pairs or a missing valid sector)")
 ANCHORS = {"abelian_core.py": ["_tensordot_blockwise", "drop_misaligned_sectors", "_tensordot_via_fused",
                                "tensordot_abelian", "trace", "einsum", "__matmul__"]}
@@ -80,7 +81,7 @@ def gen_cases(seed, chunk, n, tier):
         static = rng.random() < 0.7
         dtype = rng.choice(ser.DTYPES)
         keep = rng.choice([0.3, 0.6, 1.0])
-        kind = rng.choice(["tensordot"] * 12 + ["matmul", "trace", "einsum", "noalign"] * 2 + ["malformed"])
+        kind = rng.choice(["tensordot"] * 10 + ["crosssparse"] * 3 + ["matmul", "trace", "einsum", "noalign"] * 2 + ["malformed"])
         meta = dict(sym=sym, static=static, dtype=dtype, kind=kind)
         orc = None
         nontrivial = False
@@ -102,8 +103,16 @@ def gen_cases(seed, chunk, n, tier):
             out.append(dict(case=_mk_case(env, steps), impl=stream.strip_py(res), oracle=orc, meta=meta,
                             nontrivial=False, op=kind, triggers=[]))
             continue
-        if kind in ("tensordot", "noalign"):
-            a, b, xa, xb = gen.rand_contractible(rng, sym, static=static, dtype=dtype, keep=keep)
+        if kind in ("tensordot", "noalign", "crosssparse"):
+            if kind == "crosssparse":
+                # >= 2 contracted legs, all sector sizes equal, sparse: the two operands store DIFFERENT
+                # combinations of contracted charges under the same fused charge (sizes coincide, so a
+                # strategy that pairs them by fused charge alone multiplies unrelated blocks silently)
+                a, b, xa, xb = gen.rand_contractible(rng, sym, static=static, dtype=dtype,
+                                                     keep=rng.choice([0.3, 0.5]), max_ndim=4,
+                                                     ncon=rng.choice([2, 2, 3]), max_size=1)
+            else:
+                a, b, xa, xb = gen.rand_contractible(rng, sym, static=static, dtype=dtype, keep=keep)
             if kind == "noalign" and xa and a.blocks and b.blocks:
                 # keep only blocks of a with one contracted charge pattern and of b with another
                 ka = {tuple(s[i] for i in xa) for s in a.blocks}
@@ -179,6 +188,10 @@ def gen_cases(seed, chunk, n, tier):
                     orc = None if complex(c) == complex(exp) else f"matmul scalar {c} != {complex(exp)}"
                 else:
                     orc = oracle.embed_compare(c, exp, ia[:-1] + ib[1:])
+                    if orc is None and c.charge != gen.py_combine(sym, [a.charge, b.charge]):
+                        orc = f"matmul result charge {c.charge} is not the combination of {a.charge} and {b.charge}"
+                    if orc is None and oracle.py_valid(c):
+                        orc = "matmul result is not a valid array: " + str(oracle.py_valid(c))
             else:
                 orc = f"matmul raised {res[0].get('msg')}"
             nontrivial = len(a.blocks) >= 2 or keep < 1.0
